@@ -116,7 +116,11 @@ func (c *ShipConnection) Run() {
 
 // provides the current ship state and error value if the state is in error
 func (c *ShipConnection) ShipHandshakeState() (model.ShipMessageExchangeState, error) {
-	return c.getState(), c.smeError
+	// state and error are set together, read them together as well
+	c.mux.Lock()
+	defer c.mux.Unlock()
+
+	return c.smeState, c.smeError
 }
 
 // invoked when pairing for a pending request is approved
